@@ -19,8 +19,8 @@ from . import theory
 from .contracts import load_contracts
 
 Z3_TIMEOUT_MS = int(os.environ.get('PYVC_Z3_TIMEOUT_MS', '10000'))
-CLI_TIMEOUT_S = int(os.environ.get('PYVC_CLI_TIMEOUT_S', '20'))
-USE_CLI = os.environ.get('PYVC_USE_CLI', '0') == '1'
+CLI_TIMEOUT_S = int(os.environ.get('PYVC_CLI_TIMEOUT_S', '10'))
+USE_CLI = os.environ.get('PYVC_USE_CLI', '1') == '1'
 
 
 class Exec(ExprMixin, CallMixin, BuiltinMixin, StmtMixin):
